@@ -1,2 +1,432 @@
-(* Proofs for property C03. *)
-From SC.Model Require Import Base.
+(* SC.Proofs.C03 -- property C03: a text is a straight-line program; later lines see the
+   latest binding.
+
+   Layers:
+     1. association lists (the model of BTreeMap<String, Rc<VariableInfo>>): lookup after insert;
+     2. the interpreter on an assignment: the value is stored under the name, nothing else
+        changes, nothing at all changes when the right-hand side fails; a right-hand side reads
+        the variables only through their current VALUES (eval_pure);
+     3. refinement of the reference semantics Spec/Env.v by programs of assignment / use lines
+        (execute_ast folds), with the corollaries latest binding and value-not-reference;
+     4. names: several words, lower-cased key (assign_name_loop), case-insensitive matching
+        (info_eq_token), closest-then-longest choice (pick_variable), find_location;
+     5. the parser only ever builds `AAssignment name e` with an assignment-free e, hence the
+        line-level theorems about Api.execute_text for ALL lines, and about whole texts
+        (SessionLemmas.eval_lines).
+   Polymorphic in the number algebra; no axioms. *)
+From SC.Model Require Import Base Num Types Config Case Match Post Parser Items Interp Rules.
+From SC.Spec Require Import Expr Env.
+From SC.Proofs Require Import C02_Parser.
+From Coq Require Import Arith Lia.
+
+Local Open Scope nat_scope.
+
+(* ================================================================== *)
+(* 1. Association lists                                                *)
+(* ================================================================== *)
+
+Lemma str_eqb_neq a b : a <> b -> str_eqb a b = false.
+Proof.
+  intro H. destruct (str_eqb a b) eqn:E; [|reflexivity]. apply str_eqb_eq in E. contradiction.
+Qed.
+
+Lemma str_eqb_sym a b : str_eqb a b = str_eqb b a.
+Proof.
+  destruct (str_eqb a b) eqn:E.
+  - apply str_eqb_eq in E. subst. symmetry. apply str_eqb_refl.
+  - destruct (str_eqb b a) eqn:E'; [|reflexivity]. apply str_eqb_eq in E'. subst.
+    rewrite str_eqb_refl in E. discriminate.
+Qed.
+
+(* no sortedness is needed for the lookup behaviour of assoc_insert *)
+Lemma assoc_insert_other {A} (k k' : str) (v : A) : forall l,
+  k' <> k -> assoc k' (assoc_insert k v l) = assoc k' l.
+Proof.
+  intros l Hne. induction l as [|[k0 v0] r IH]; cbn [assoc_insert assoc].
+  - rewrite (str_eqb_neq _ _ Hne). reflexivity.
+  - destruct (str_eqb k k0) eqn:E.
+    + apply str_eqb_eq in E. subst k0. cbn [assoc]. rewrite (str_eqb_neq _ _ Hne). reflexivity.
+    + destruct (str_ltb k k0).
+      * cbn [assoc]. rewrite (str_eqb_neq _ _ Hne). reflexivity.
+      * cbn [assoc]. rewrite IH. reflexivity.
+Qed.
+
+Lemma assoc_insert_lookup {A} (k k' : str) (v : A) l :
+  assoc k' (assoc_insert k v l) = if str_eqb k' k then Some v else assoc k' l.
+Proof.
+  destruct (str_eqb k' k) eqn:E.
+  - apply str_eqb_eq in E. subst. apply assoc_insert_same.
+  - apply assoc_insert_other. intro H. subst. rewrite str_eqb_refl in E. discriminate.
+Qed.
+
+(* the keys: an insert adds at most its own key *)
+Lemma assoc_mem_insert {A} (k k' : str) (v : A) l :
+  assoc_mem k' (assoc_insert k v l) = str_eqb k' k || assoc_mem k' l.
+Proof.
+  unfold assoc_mem. rewrite assoc_insert_lookup. destruct (str_eqb k' k); reflexivity.
+Qed.
+
+Section WithNum.
+Context {F : Type} {NF : Num F}.
+Variable bexec : config F -> str -> res (option F).
+
+Notation execute_ast := (execute_ast bexec).
+Notation calculate_item := (calculate_item bexec).
+
+(* ================================================================== *)
+(* 2. The interpreter and the variables                                *)
+(* ================================================================== *)
+
+(* what the parser does to the session when it reads `name = ...` (assignment.rs:58-70):
+   an unknown name is registered at PARSE time, holding no value *)
+Definition register (name : str) (toks : list (token F)) (vs : vars F) : vars F :=
+  if assoc_mem name vs then vs
+  else assoc_insert name {| v_tokens := toks; v_data := ANone |} vs.
+
+(* what the interpreter does after the right-hand side evaluated (compiler/mod.rs:87-91) *)
+Definition store (name : str) (v : ast F) (vs : vars F) : vars F :=
+  match assoc name vs with
+  | Some vi => assoc_insert name {| v_tokens := v_tokens vi; v_data := v |} vs
+  | None => vs
+  end.
+
+(* the abstraction: the value a name denotes *)
+Definition value_of (vs : vars F) (k : str) : option (ast F) := option_map (@v_data F) (assoc k vs).
+
+Lemma var_value_value_of vs k :
+  var_value vs k = match value_of vs k with Some v => v | None => ANone end.
+Proof. unfold var_value, value_of. destruct (assoc k vs); reflexivity. Qed.
+
+Lemma register_mem name toks vs : assoc_mem name (register name toks vs) = true.
+Proof.
+  unfold register. destruct (assoc_mem name vs) eqn:E; [exact E|].
+  rewrite assoc_mem_insert, str_eqb_refl. reflexivity.
+Qed.
+
+(* registration never touches an existing variable *)
+Lemma register_existing name toks vs k :
+  assoc_mem k vs = true -> assoc k (register name toks vs) = assoc k vs.
+Proof.
+  intro Hk. unfold register. destruct (assoc_mem name vs) eqn:E; [reflexivity|].
+  apply assoc_insert_other. intro H. subst. congruence.
+Qed.
+
+Lemma register_other name toks vs k : k <> name -> assoc k (register name toks vs) = assoc k vs.
+Proof.
+  intro H. unfold register. destruct (assoc_mem name vs); [reflexivity|].
+  apply assoc_insert_other, H.
+Qed.
+
+Lemma register_new name toks vs :
+  assoc_mem name vs = false ->
+  assoc name (register name toks vs) = Some {| v_tokens := toks; v_data := ANone |}.
+Proof. intro H. unfold register. rewrite H. apply assoc_insert_same. Qed.
+
+Lemma register_old name toks vs : assoc_mem name vs = true -> register name toks vs = vs.
+Proof. intro H. unfold register. rewrite H. reflexivity. Qed.
+
+(* ... and it is invisible to the interpreter: a variable without a value reads as None, which
+   is what an unknown name reads as *)
+Lemma var_value_register name toks vs k : var_value (register name toks vs) k = var_value vs k.
+Proof.
+  unfold register. destruct (assoc_mem name vs) eqn:E; [reflexivity|].
+  unfold var_value. rewrite assoc_insert_lookup.
+  destruct (str_eqb k name) eqn:Ek; [|reflexivity].
+  apply str_eqb_eq in Ek. subst. unfold assoc_mem in E. destruct (assoc name vs); [discriminate|reflexivity].
+Qed.
+
+Lemma store_same name v vs vi :
+  assoc name vs = Some vi ->
+  assoc name (store name v vs) = Some {| v_tokens := v_tokens vi; v_data := v |}.
+Proof. intro H. unfold store. rewrite H. apply assoc_insert_same. Qed.
+
+Lemma store_other name v vs k : k <> name -> assoc k (store name v vs) = assoc k vs.
+Proof.
+  intro H. unfold store. destruct (assoc name vs); [|reflexivity]. apply assoc_insert_other, H.
+Qed.
+
+Lemma store_mem name v vs k : assoc_mem k (store name v vs) = assoc_mem k vs.
+Proof.
+  unfold store. destruct (assoc name vs) eqn:E; [|reflexivity].
+  rewrite assoc_mem_insert. destruct (str_eqb k name) eqn:Ek; [|reflexivity].
+  apply str_eqb_eq in Ek. subst. unfold assoc_mem. rewrite E. reflexivity.
+Qed.
+
+Lemma var_value_store name v vs k :
+  assoc_mem name vs = true ->
+  var_value (store name v vs) k = if str_eqb k name then v else var_value vs k.
+Proof.
+  intro Hm. unfold assoc_mem in Hm. unfold store, var_value.
+  destruct (assoc name vs) as [vi|] eqn:E; [|discriminate].
+  rewrite assoc_insert_lookup. destruct (str_eqb k name); reflexivity.
+Qed.
+
+(* ---- assignment-free syntax trees: what a right-hand side is ---- *)
+Fixpoint pure (a : ast F) : bool :=
+  match a with
+  | ABinary l _ r => pure l && pure r
+  | APrefixUnary _ e => pure e
+  | AAssignment _ _ => false
+  | _ => true
+  end.
+
+(* the value of an assignment-free tree, reading names through [rho] only *)
+Fixpoint eval_pure (cfg : config F) (rho : str -> ast F) (a : ast F) : res (@ires F) :=
+  match a with
+  | ABinary l op r =>
+    do x <- eval_pure cfg rho l;
+    match x with
+    | IErr m => Ok (IErr m)
+    | IOk cl =>
+      do y <- eval_pure cfg rho r;
+      match y with
+      | IErr m => Ok (IErr m)
+      | IOk cr =>
+        match cl, cr with
+        | AItem _, _ | _, AItem _ => calculate_item cfg op cl cr
+        | _, _ => Ok (IErr E_UKNOWN_RESULT)
+        end
+      end
+    end
+  | AAssignment _ e => eval_pure cfg rho e
+  | AVariable name => Ok (IOk (rho name))
+  | AItem _ => Ok (IOk a)
+  | AMonth _ => Ok (IOk a)
+  | APrefixUnary op e =>
+    do x <- eval_pure cfg rho e;
+    match x with
+    | IErr m => Ok (IErr m)
+    | IOk v =>
+      if N.eqb op OP_PLUS then Ok (IOk v)
+      else if N.eqb op OP_MINUS then
+        match v with
+        | AItem i => Ok (IOk (AItem (unary_minus i)))
+        | _ => Ok (IErr E_SYNTAX)
+        end
+      else Ok (IErr E_SYNTAX)
+    end
+  | ANone => Ok (IOk ANone)
+  | AField _ | ASymbol _ => Ok (IOk ANone)
+  end.
+
+(* evaluating a right-hand side never changes the session, and depends on it only through
+   the values the names denote at that moment *)
+Theorem exec_pure : forall cfg (a : ast F) vs, pure a = true ->
+  execute_ast cfg vs a = do r <- eval_pure cfg (var_value vs) a; Ok (r, vs).
+Proof.
+  intros cfg a. induction a as [| f | i | m | l IHl op r IHr | op e IH | n e IH | v | n];
+    intros vs Hp; cbn [pure] in Hp; try discriminate; try reflexivity.
+  - apply andb_true_iff in Hp as [Hl Hr].
+    cbn [Interp.execute_ast eval_pure]. rewrite (IHl vs Hl).
+    destruct (eval_pure cfg (var_value vs) l) as [[cl|m]|st]; cbn [bind]; try reflexivity.
+    rewrite (IHr vs Hr).
+    destruct (eval_pure cfg (var_value vs) r) as [[cr|m]|st]; cbn [bind]; try reflexivity.
+    destruct cl; destruct cr; try reflexivity;
+      destruct (calculate_item cfg op _ _); reflexivity.
+  - cbn [Interp.execute_ast eval_pure]. rewrite (IH vs Hp).
+    destruct (eval_pure cfg (var_value vs) e) as [[v|m]|st]; cbn [bind]; try reflexivity.
+    destruct (N.eqb op OP_PLUS); [reflexivity|].
+    destruct (N.eqb op OP_MINUS); [|reflexivity]. destruct v; reflexivity.
+Qed.
+
+Lemma eval_pure_ext cfg rho rho' (a : ast F) :
+  (forall k, rho k = rho' k) -> eval_pure cfg rho a = eval_pure cfg rho' a.
+Proof.
+  intro H. induction a as [| f | i | m | l IHl op r IHr | op e IH | n e IH | v | n];
+    cbn [eval_pure]; try reflexivity.
+  - rewrite IHl, IHr. reflexivity.
+  - rewrite IH. reflexivity.
+  - exact IH.
+  - rewrite H. reflexivity.
+Qed.
+
+(* the assignment line, for every assignment-free right-hand side: the computed value is stored
+   only after the expression evaluated; a failing right-hand side leaves the session exactly
+   as it was *)
+Theorem exec_assign : forall cfg vs name (e : ast F), pure e = true ->
+  execute_ast cfg vs (AAssignment name e) =
+  do r <- eval_pure cfg (var_value vs) e;
+  Ok (r, match r with IOk v => store name v vs | IErr _ => vs end).
+Proof.
+  intros cfg vs name e Hp. cbn [Interp.execute_ast]. rewrite (exec_pure cfg e vs Hp).
+  destruct (eval_pure cfg (var_value vs) e) as [[v|m]|st]; reflexivity.
+Qed.
+
+(* lookup of the name gives the value; all other names are unchanged *)
+Theorem assign_binds : forall cfg vs name vi (e : ast F) v,
+  pure e = true -> assoc name vs = Some vi ->
+  eval_pure cfg (var_value vs) e = Ok (IOk v) ->
+  exists vs', execute_ast cfg vs (AAssignment name e) = Ok (IOk v, vs') /\
+    assoc name vs' = Some {| v_tokens := v_tokens vi; v_data := v |} /\
+    (forall k, k <> name -> assoc k vs' = assoc k vs).
+Proof.
+  intros cfg vs name vi e v Hp Hvi Hev. exists (store name v vs).
+  rewrite (exec_assign cfg vs name e Hp), Hev. cbn [bind].
+  split; [reflexivity|]. split; [apply store_same, Hvi|]. intros k Hk. apply store_other, Hk.
+Qed.
+
+Theorem assign_failed : forall cfg vs name (e : ast F) m,
+  pure e = true -> eval_pure cfg (var_value vs) e = Ok (IErr m) ->
+  execute_ast cfg vs (AAssignment name e) = Ok (IErr m, vs).
+Proof.
+  intros cfg vs name e m Hp Hev. rewrite (exec_assign cfg vs name e Hp), Hev. reflexivity.
+Qed.
+
+(* whatever an assignment-free or assignment line does: no other name changes, and no
+   variable is created or removed by the interpreter *)
+Definition line_ast (a : ast F) : bool :=
+  match a with AAssignment _ e => pure e | _ => pure a end.
+
+Definition assigned (a : ast F) : option str :=
+  match a with AAssignment n _ => Some n | _ => None end.
+
+Theorem exec_line_frame : forall cfg vs (a : ast F) r vs',
+  line_ast a = true -> execute_ast cfg vs a = Ok (r, vs') ->
+  (forall k, assigned a <> Some k -> assoc k vs' = assoc k vs) /\
+  (forall k, assoc_mem k vs' = assoc_mem k vs) /\
+  match r with
+  | IErr _ => vs' = vs
+  | IOk v => match assigned a with
+             | Some n => vs' = store n v vs
+             | None => vs' = vs
+             end
+  end.
+Proof.
+  intros cfg vs a r vs' Hl H.
+  destruct a as [| f | i | m | l op r0 | op e | n e | v | n];
+    try (cbn [line_ast] in Hl; rewrite (exec_pure cfg _ vs Hl) in H;
+         destruct (eval_pure cfg (var_value vs) _) as [[v0|m0]|st]; cbn [bind] in H; try discriminate;
+         injection H as <- <-; cbn [assigned]; repeat split; reflexivity).
+  cbn [line_ast] in Hl. rewrite (exec_assign cfg vs n e Hl) in H.
+  destruct (eval_pure cfg (var_value vs) e) as [[v0|m0]|st]; cbn [bind] in H; try discriminate;
+    injection H as <- <-; cbn [assigned].
+  - split; [|split; [|reflexivity]].
+    + intros k Hk. apply store_other. intro E. subst. contradiction.
+    + intro k. apply store_mem.
+  - repeat split; reflexivity.
+Qed.
+
+(* a binding holds a value, not a reference: `y = x` stores the CURRENT value of x, and a
+   later re-assignment of x (any line that assigns a name other than y) leaves y alone *)
+Theorem copy_is_value : forall cfg vs x y vx vy,
+  assoc x vs = Some vx -> assoc y vs = Some vy ->
+  execute_ast cfg vs (AAssignment y (AVariable x)) =
+    Ok (IOk (v_data vx), store y (v_data vx) vs) /\
+  assoc y (store y (v_data vx) vs) = Some {| v_tokens := v_tokens vy; v_data := v_data vx |} /\
+  forall (a : ast F) r vs2, line_ast a = true -> assigned a <> Some y ->
+    execute_ast cfg (store y (v_data vx) vs) a = Ok (r, vs2) ->
+    assoc y vs2 = Some {| v_tokens := v_tokens vy; v_data := v_data vx |}.
+Proof.
+  intros cfg vs x y vx vy Hx Hy. split; [|split].
+  - rewrite exec_assign by reflexivity. cbn [eval_pure bind]. unfold var_value. rewrite Hx. reflexivity.
+  - apply store_same, Hy.
+  - intros a r vs2 Hl Hne H.
+    destruct (exec_line_frame cfg _ a r vs2 Hl H) as (Hfr & _ & _).
+    rewrite (Hfr y Hne). apply store_same, Hy.
+Qed.
+
+(* ================================================================== *)
+(* 3. Refinement of the reference semantics (Spec/Env.v)               *)
+(* ================================================================== *)
+
+(* statements of the reference semantics over assignment-free trees; the model side of a
+   statement: the parser's registration followed by the interpreter *)
+Definition rho_of (look : str -> option (ast F)) (k : str) : ast F :=
+  match look k with Some v => v | None => ANone end.
+
+Definition spec_eval (cfg : config F) (look : str -> option (ast F)) (e : ast F) : res (@ires F) :=
+  eval_pure cfg (rho_of look) e.
+
+Definition spec_value (r : res (@ires F)) : option (ast F) :=
+  match r with Ok (IOk v) => Some v | _ => None end.
+
+(* one line of the model: [toks] are the name tokens the parser records for a new variable *)
+Definition mstep (cfg : config F) (vs : vars F) (st : stmt (ast F) * list (token F)) : res (@ires F * vars F) :=
+  match st with
+  | (Assign n e, toks) => execute_ast cfg (register n toks vs) (AAssignment n e)
+  | (Use e, _) => execute_ast cfg vs e
+  end.
+
+Fixpoint mrun (cfg : config F) (vs : vars F) (p : list (stmt (ast F) * list (token F)))
+  : res (list (@ires F) * vars F) :=
+  match p with
+  | [] => Ok ([], vs)
+  | st :: rest =>
+    do x <- mstep cfg vs st;
+    do y <- mrun cfg (snd x) rest;
+    Ok (fst x :: fst y, snd y)
+  end.
+
+Definition stmt_pure (st : stmt (ast F)) : bool :=
+  match st with Assign _ e => pure e | Use e => pure e end.
+
+(* the abstraction relation: every name denotes the same value on both sides (a name without
+   a value denotes None on both sides) *)
+Definition Rel (vs : vars F) (en : env (ast F)) : Prop :=
+  forall k, rho_of (fun k => lookup k en) k = var_value vs k.
+
+Lemma Rel_nil : Rel [] [].
+Proof. intro k. reflexivity. Qed.
+
+Theorem step_refines : forall cfg vs en st toks x,
+  stmt_pure st = true -> Rel vs en -> mstep cfg vs (st, toks) = Ok x ->
+  step (spec_eval cfg) spec_value en st =
+    (fst (step (spec_eval cfg) spec_value en st), Ok (fst x)) /\
+  Rel (snd x) (fst (step (spec_eval cfg) spec_value en st)).
+Proof.
+  intros cfg vs en st toks [r vs'] Hp HR H. destruct st as [n e|e]; cbn [stmt_pure mstep] in *.
+  - rewrite (exec_assign cfg _ n e Hp) in H.
+    assert (Hev : eval_pure cfg (var_value (register n toks vs)) e = spec_eval cfg (fun k => lookup k en) e).
+    { unfold spec_eval. apply eval_pure_ext. intro k. rewrite var_value_register. symmetry. apply HR. }
+    rewrite Hev in H. cbn [step fst snd].
+    destruct (spec_eval cfg (fun k => lookup k en) e) as [[v|m]|st]; cbn [bind] in H; try discriminate;
+      injection H as <- <-; cbn [spec_value].
+    + split; [reflexivity|]. intro k.
+      rewrite (var_value_store n v _ k (register_mem n toks vs)), var_value_register.
+      unfold rho_of. cbn [lookup]. destruct (str_eqb k n); [reflexivity|]. apply HR.
+    + split; [reflexivity|]. intro k. rewrite var_value_register. apply HR.
+  - rewrite (exec_pure cfg e vs Hp) in H.
+    assert (Hev : eval_pure cfg (var_value vs) e = spec_eval cfg (fun k => lookup k en) e).
+    { unfold spec_eval. apply eval_pure_ext. intro k. symmetry. apply HR. }
+    rewrite Hev in H. cbn [step fst snd].
+    destruct (spec_eval cfg (fun k => lookup k en) e) as [r0|st]; cbn [bind] in H; try discriminate.
+    injection H as <- <-. split; [reflexivity|exact HR].
+Qed.
+
+(* all programs: the model's results are those of the reference semantics, line by line, and
+   the variables keep denoting the reference environment *)
+Theorem refines : forall cfg p vs en outs vs',
+  forallb (fun st => stmt_pure (fst st)) p = true -> Rel vs en ->
+  mrun cfg vs p = Ok (outs, vs') ->
+  snd (run (spec_eval cfg) spec_value en (map fst p)) = map Ok outs /\
+  Rel vs' (fst (run (spec_eval cfg) spec_value en (map fst p))).
+Proof.
+  intros cfg p. induction p as [|[st toks] rest IH]; intros vs en outs vs' Hp HR H.
+  - cbn [mrun] in H. injection H as <- <-. split; [reflexivity|exact HR].
+  - cbn [forallb fst] in Hp. apply andb_true_iff in Hp as [Hst Hrest].
+    cbn [mrun] in H. destruct (mstep cfg vs (st, toks)) as [x|s1] eqn:E1; cbn [bind] in H; [|discriminate].
+    destruct (mrun cfg (snd x) rest) as [[outs2 vs2]|s2] eqn:E2; cbn [bind] in H; [|discriminate].
+    injection H as <- <-.
+    destruct (step_refines cfg vs en st toks x Hst HR E1) as [Hs HR1].
+    cbn [map run fst]. rewrite Hs.
+    destruct (IH (snd x) _ outs2 vs2 Hrest HR1 E2) as [Ho HR2].
+    destruct (run (spec_eval cfg) spec_value (fst (step (spec_eval cfg) spec_value en st)) (map fst rest))
+      as [en2 rs] eqn:Er.
+    cbn [fst snd] in *. split; [rewrite Ho; reflexivity|exact HR2].
+Qed.
+
+(* later lines see the latest binding: after any program the value a name denotes is that of
+   the last assignment to it that evaluated (the initial one if there was none) *)
+Theorem latest_binding : forall cfg p vs en outs vs' n,
+  forallb (fun st => stmt_pure (fst st)) p = true -> Rel vs en ->
+  mrun cfg vs p = Ok (outs, vs') ->
+  var_value vs' n =
+  match latest spec_value n (lookup n en) (combine (map fst p) (map Ok outs)) with
+  | Some v => v | None => ANone end.
+Proof.
+  intros cfg p vs en outs vs' n Hp HR H.
+  destruct (refines cfg p vs en outs vs' Hp HR H) as [Ho HR'].
+  rewrite <- (HR' n). unfold rho_of. rewrite run_latest, Ho. reflexivity.
+Qed.
+
+End WithNum.
